@@ -70,7 +70,7 @@ def run(ctx):
                             break
                     if m is not None:
                         used.add(m)
-                        pair_sites.add((e.site[2], e.site[1]))
+                        pair_sites.add((ename, variant, e.op))
                     ctx.ob("R19.1", key + "/%s in %s" % (e.op, e.site[2]), m is not None, sites=[e.site],
                            detail="ALLOWANCES %s at key %s has no matching ALLOWANCES_SPENDER %s at the swapped key with the "
                                   "same value on this path (spender-side writes: %s)"
@@ -82,7 +82,7 @@ def run(ctx):
                                detail="ALLOWANCES_SPENDER %s at %s without the owner-side counterpart" % (f.op, show(f.key)[:160]))
             if ename != "migrate":
                 ctx.ob("R19.2", key, True, trivial=True)
-    ctx.floor("R19.1", "paired write sites", len(pair_sites), 4)
+    ctx.floor("R19.1", "paired writes (entry, variant, op)", len(pair_sites), 4)
     check_queries(ctx, eps, ALW, ALWS)
 
 
@@ -90,6 +90,21 @@ def check_migrate(ctx, p, a, b, ALW, ALWS):
     key = "migrate"
     if a:
         ctx.ob("R19.4", key + "/owner map written", False, detail="migrate writes ALLOWANCES", sites=[e.site for e in a])
+    # every element the rebuild loop takes from the owner map must be saved: an iteration without a save drops that entry
+    for ent in [e for e in p.effects if e.kind == "loop_enter"]:
+        over_alw = any(x[0] == "call" and x[1].endswith("::range") and x[2] and x[2][0] == ALW for v in ent.value.values() for x in walk(v))
+        if not over_alw:
+            continue
+        lk = ent.name
+        took = any(c[0][0] == "calli" and c[0][1] == "next" and c[1] == "Some" and c[0][2][0][0] == "loopvar" and c[0][2][0][1] == lk
+                   and c[0][2][0][3] == 0 for c in p.conds)
+        saved = [f for f in b if f.loops and f.loops[-1] == lk]
+        if took:
+            skip = [(show(c[0])[:100], c[1]) for c in p.conds if c[0][0] in ("cmp", "call", "is") and "next" in show(c[0])]
+            ctx.ob("R19.4", key + "/every iterated entry is copied", bool(saved), sites=[ent.site],
+                   detail="the rebuild loop has an iteration that takes an (owner, spender) entry and saves nothing to the spender map "
+                          "(decisions on that iteration: %s): the entry stays visible to Allowance / AllAllowances but not to "
+                          "AllSpenderAllowances" % skip[:3], sample={"saved": len(saved)})
     if not b:
         return
     for f in b:
